@@ -32,6 +32,10 @@ type expiry struct {
 	// total is the session expiry interval the timer has been started with (expireIn is consumed
 	// by start and by the callback)
 	total *uint32
+	// cancelled is set by cancel: a callback that has not got hold of timerLock yet does nothing
+	cancelled bool
+	// done is set by the callback once it has reported the timer's end to the manager
+	done bool
 }
 
 func newExpiry(c expiryConfig) *expiry {
@@ -75,15 +79,21 @@ func (s *expiry) start() {
 	s.timerLock.Unlock()
 }
 
+// cancel stops the timer. It returns false if the callback has already done its work (and has
+// reported that to the manager itself), true if the caller now owns what the timer was guarding.
+// The timer is created by time.AfterFunc: it has no channel that could be drained.
 func (s *expiry) cancel() bool {
 	defer s.timerLock.Unlock()
 	s.timerLock.Lock()
 
-	res := s.timer.Stop()
-	if !res {
-		<-s.timer.C
+	if s.done {
+		return false
 	}
-	return res
+
+	s.cancelled = true
+	s.timer.Stop()
+
+	return true
 }
 
 func (s *expiry) persistedState() *vlpersistence.SessionDelays {
@@ -109,6 +119,10 @@ func (s *expiry) timerCallback() {
 	defer s.timerLock.Unlock()
 	s.timerLock.Lock()
 
+	if s.cancelled {
+		return
+	}
+
 	// 1. check for will message available
 	if s.will != nil {
 		// publish if exists and wipe state
@@ -121,9 +135,11 @@ func (s *expiry) timerCallback() {
 	if s.expireIn == nil {
 		// 2.a session has processed delayed will and there is nothing to do
 		// completely shutdown the session
+		s.done = true
 		s.sessionTimer(s.id, false)
 	} else if *s.expireIn == 0 {
 		// session has expired. WIPE IT
+		s.done = true
 		s.sessionTimer(s.id, true)
 	} else {
 		// restart timer and wait again
